@@ -447,6 +447,40 @@ Qed.
 Theorem ht_tags L0 t a : ht_inv L0 t a -> forall b, In b (live a) -> In b L0 \/ b_tag b = ht_mem t.
 Proof. intros [_ Ho]. apply (own_tags _ _ _ _ Ho). Qed.
 
+(* ------------------------------------------------------------------------------------------ *)
+(** * Corollaries under the names the cross-cutting properties use *)
+
+(** C06: no history faults; destroy releases exactly the table's blocks. *)
+Theorem ht_run_no_fault L0 ops t a : ht_inv L0 t a -> forall f, ht_run t ops a <> Fault f.
+Proof. intros Hi f. destruct (ht_run_refines L0 ops t a (ht_abs t) Hi (Permutation_refl _)) as (? & ? & ? & -> & _). discriminate. Qed.
+Theorem ht_destroy_balanced L0 t a : ht_inv L0 t a -> exists a', ht_destroy t a = Ok a' /\ live a' = L0.
+Proof. intros Hi. destruct (HP ht_destroy_spec L0 t a Hi) as (a' & E & Hl & _). eauto. Qed.
+
+(** C08 / C15: get_keys and get_values. A refused request leaves the ledger literally as it was (the table is
+    not an output of the function: it cannot change); on success the array holds the keys / values of all
+    entries in bucket order, i.e. a permutation of the ideal map's, in [max 1 size] slots, in two fresh
+    blocks carrying the table's allocator tag. *)
+Theorem ht_collect_alloc_atomic f L0 t a st a' :
+  ht_inv L0 t a -> ht_collect f t a = Ok (st, None, a') -> live a' = live a /\ ht_inv L0 t a' /\ st <> CC_OK.
+Proof.
+  intros Hi E. destruct (HP ht_collect_spec f L0 t a Hi) as (st0 & oar & a0 & E0 & _ & _ & Hcase).
+  rewrite E in E0. inversion E0; subst. destruct Hcase as (Hst & Ho & Hl & _).
+  split; [assumption|]. split; [split; [apply Hi|assumption]|]. destruct Hst as [->|(-> & _)]; discriminate.
+Qed.
+Theorem ht_collect_content f L0 t a st ar a' :
+  ht_inv L0 t a -> ht_collect f t a = Ok (st, Some ar, a') ->
+  st = CC_OK /\ ar_items ar = map f (entries t) /\ lenN (ar_items ar) = ht_size t /\
+  ar_cap ar = (if 0 <? ht_size t then ht_size t else 1) /\ lenN (ar_items ar) <= ar_cap ar /\
+  own (ht_mem t) (ar_buf ar :: ar_hdr ar :: ids t) a' L0.
+Proof.
+  intros Hi E. destruct (HP ht_collect_spec f L0 t a Hi) as (st0 & oar & a0 & E0 & _ & _ & Hcase).
+  rewrite E in E0. inversion E0; subst. destruct Hcase as (-> & Hitems & Hcap & Ho & _).
+  assert (Hlen : lenN (ar_items ar) = ht_size t).
+  { rewrite Hitems. unfold lenN. rewrite map_length. symmetry. apply (wf_size _ _ t (proj1 Hi)). }
+  split; [reflexivity|]. split; [assumption|]. split; [assumption|]. split; [assumption|]. split; [|assumption].
+  rewrite Hlen, Hcap. destruct (0 <? ht_size t) eqn:E1; lia.
+Qed.
+
 End HashProofsE.
 Unset Default Proof Using.
 
